@@ -94,6 +94,11 @@ fn check_value(name: &str, bs: &ByteString, s: &str, input: &[u8], out: &mut Vec
     if format!("{bs}") != format!("{s}") || format!("{bs:?}") != format!("{s:?}") || format!("{bs:>7}") != format!("{s:>7}") {
         out.push(vio("display-debug", input, format!("{name}: Display/Debug differ from str's")));
     }
+    // width / precision / fill / alignment / alternate forms
+    macro_rules! same {
+        ($($f:literal)+) => { $( if format!($f, bs) != format!($f, s) { out.push(vio("display-debug:format-spec", input, format!("{name}: format spec {:?} gives {:?}, str gives {:?}", $f, format!($f, bs), format!($f, s)))); return; } )+ };
+    }
+    same!("{:.0}" "{:.1}" "{:.2}" "{:.9}" "{:3}" "{:<4}" "{:^5}" "{:>6}" "{:*<5.1}" "{:#>4.2}" "{:2.0}" "{:#?}" "{:8?}" "{:<8?}" "{:.1?}");
     if String::from(bs.clone()) != s || bs.to_string() != s {
         out.push(vio("into-string", input, format!("{name}: String::from differs")));
     }
